@@ -367,6 +367,22 @@ def run(ctx):
             return tlc.run("TdmaSched.tla", cfg, workers=mcw, timeout=3000)     # metadir vanished: once more
 
     mc_fut = [(cfg, what, mcpool.submit(mc, cfg)) for cfg, what in mc_jobs]
+    # growth beyond the statement: one-shot GSM-time events inside the frame loop across the hyperframe wrap
+    # (spec/GsmtimeLoop.tla).  With modular comparison every event fires; as the code compares (no modulus)
+    # events for frame 0 / 1 scheduled before the wrap never fire - documented in DESIGN 12.6, not a C08 clause.
+    g_ok = tlc.run("GsmtimeLoop.tla", "MC_GsmtimeLoop.cfg", workers=2, timeout=600)
+    ctx.require_ok("MC GsmtimeLoop (modular comparison: every one-shot event fires, pool never leaks)", g_ok)
+    g_hz = tlc.run("GsmtimeLoop.tla", "MC_GsmtimeLoopHazard.cfg", workers=2, timeout=600)
+    ctx.add_tlc("MC GsmtimeLoopHazard (comparison as in sched_gsmtime.c: expected to be violated at the wrap)", g_hz)
+    hz_script = "N 0\nG 0 7 1 1 1 2 0\nG 1 7 1 1 1 2 0\nX 2715645\nX 2715646\nX 2715647\nX 0\nX 1\n"
+    try:
+        import subprocess
+        hp = subprocess.run([exe], input=hz_script, capture_output=True, text=True, timeout=60)
+        fired = sum(json.loads(l).get("rc", 0) for l in hp.stdout.splitlines() if l.startswith('{"op":"X"'))
+    except Exception:
+        fired = None
+    ctx.extra["gsmtime_wrap_hazard"] = dict(spec_violation=(g_hz.violation or {}).get("name"),
+                                            real_code_events_fired_across_wrap=fired, expected_if_sound=2)
     nsim = ctx.pick(40, 500)
     simdir = os.path.join(ctx.scratch, "sim")
     os.makedirs(simdir)
